@@ -275,7 +275,7 @@ func ruleC04Forms(e *Env) {
 
 // maskedSym builds the abstract value of `sym & mask` as the evaluator prints it.
 func maskedSym(sym string, mask int64) pred.Val {
-	b := pred.SymBits(sym, 64, true)
+	b := pred.SymBits(sym, pred.WordBits, true) // Rule is an int
 	for i := range b.B {
 		if mask>>uint(i)&1 == 0 {
 			b.B[i] = pred.Bit{K: '0'}
